@@ -23,7 +23,8 @@ PROOF_MODULES = ["Compute.Props.C13"]
 REQUIRED_THEOREMS = ["Cv.C13.acovf_def", "Cv.C13.acf_def", "Cv.C13.acovf_even", "Cv.C13.acf_even", "Cv.C13.acf_zero",
                      "Cv.C13.acf_abs_le_one", "Cv.C13.acovf_large_lag", "Cv.C13.difference_cumsum",
                      "Cv.C13.fit_intercept", "Cv.C13.fit_yule_walker", "Cv.C13.predict_spec",
-                     "Cv.C13.fit_shift", "Cv.C13.predict_shift"]
+                     "Cv.C13.predictOne_spec", "Cv.C13.fit_shift", "Cv.C13.predict_shift", "Cv.C13.forecast_shift",
+                     "Cv.C13.cumsum_difference"]
 RULE = ("series of length 10..5000 from stationary AR(1..6) (random partial autocorrelations), plus linear trends, "
         "constant-plus-noise and offsets up to 1e6; every lag -50..50 (and lags beyond the length on short series); "
         "orders 1..8; horizons 1..1000; shift pairs (series, series + c); explicit-state forecasts incl. histories "
@@ -40,11 +41,11 @@ TRUSTED = ["Lean Float arithmetic = Rust f64 arithmetic (measured)", "Iterator::
 ASSUMPTIONS = ["lags fit in i32 and |k| != i32::MIN; orders p with p^2 < 2^24 (is_square's f32 root)"]
 
 U = 2.0 ** -53
-C_AC = 16.0       # acovf/acf: a-priori rounding bound x 16 (max observed ratio over seeds 1..5 and thorough: see report)
-C_MEAN = 32.0     # intercept
-C_YW = 200.0      # Yule-Walker residual: observed max ratio < 1
-C_PRED = 128.0    # forecasts vs exact recursion
-C_PAIR = 200.0    # shift pairs
+C_AC = 16.0       # acovf/acf: multiple of the a-priori rounding bound; max observed ratio (seeds 1..5 quick, thorough) 0.12
+C_MEAN = 32.0     # intercept; max observed ratio 0.21
+C_YW = 200.0      # Yule-Walker residual; max observed ratio 0.035
+C_PRED = 128.0    # forecasts vs exact recursion; max observed ratio 0.76
+C_PAIR = 200.0    # shift pairs; max observed ratios 0.003 (coefficients), 0.005 (forecasts)
 SKIP_AT = 1e-2
 
 
